@@ -10,9 +10,13 @@
 (* Cap? capitalises the first letter unless capitalizeOperationNames is    *)
 (* false.  Result / Variables types are exported only when                 *)
 (* export.operationResultType / export.variablesType are set; fragment     *)
-(* types and all constants always are; the operation constant is the       *)
-(* default export iff defaultExportForOperation (default true) and the     *)
-(* file has exactly one operation.                                         *)
+(* types and fragment constants always are.  An operation constant is a    *)
+(* NAMED export iff defaultExportForOperation is false, and the DEFAULT    *)
+(* export iff it is true (the default) and the file has exactly one        *)
+(* operation ("effective only when a document contains only one            *)
+(* operation").  As the code stands, with the option on and two or more    *)
+(* operations in a file their constants are declared but not exported at   *)
+(* all (neither form): modelled as it is, named here as a quirk.           *)
 (* A configuration is a record holding only the options that are SET.      *)
 (***************************************************************************)
 EXTENDS Naturals, Sequences, FiniteSets
@@ -44,6 +48,7 @@ Declared(nc, xc, d) ==
   ELSE {D("type", FragTypeName(nc, d.name), TRUE)}
 ConstsDeclared(nc, d) ==
   IF d.k = "op" THEN {OpConstName(nc, d.opType, IF d.hasName THEN d.name ELSE "")} ELSE {FragConstName(nc, d.name)}
+OpConstNamedExport(xc) == ~Opt(xc, "defaultExportForOperation", TRUE)
 DefaultExportExpected(xc, defs) ==
   Opt(xc, "defaultExportForOperation", TRUE) /\ Cardinality({i \in DOMAIN defs : defs[i].k = "op"}) = 1
 
